@@ -29,6 +29,15 @@ fn dense_inv<T: Clone + Default + PartialEq>(c: &ColumnData<T>) -> bool {
                 }
                 s += 1;
             }
+            // no presence bit beyond the value array: a stale bit there becomes a phantom value the next
+            // time the array grows over it
+            let mut t = values.len();
+            while t < present.len() * 64 {
+                if bit(present, t) {
+                    return false;
+                }
+                t += 1;
+            }
             let _ = base;
             n == *count
         }
@@ -144,6 +153,53 @@ pub fn sparse_set(rows: &[usize], idx: usize) {
     assert!(dense_inv(&c), "C30 dense representation invariant after promotion");
     vk_cover!(matches!(c, ColumnData::Dense { .. }), "reach promoted");
     vk_cover!(true, "reach");
+    std::mem::forget(c);
+}
+
+/// for_each (what the typed->Other spill walks) visits exactly the present rows, each once, with its value.
+pub fn dense_for_each(base: usize, span: usize) {
+    let (c, model) = pre_dense(base, span);
+    let mut seen: [u8; 8] = [0; 8];
+    let mut bad = false;
+    c.for_each(|idx, v| {
+        if idx >= base && idx - base < span {
+            let s = idx - base;
+            seen[s] += 1;
+            if model[s] != Some(*v) {
+                bad = true;
+            }
+        } else {
+            bad = true;
+        }
+    });
+    assert!(!bad, "C30 for_each visited a row that holds no value, or with another value");
+    let mut s = 0;
+    while s < span {
+        assert!(seen[s] == (model[s].is_some() as u8), "C30 for_each must visit exactly the present rows, once");
+        s += 1;
+    }
+    vk_cover!(true, "reach");
+    std::mem::forget(c);
+}
+
+/// Growth across bitmap words: a fully packed dense column of 64 rows, one write `gap` rows past its end
+/// (still dense by the break-even rule).  The written row must read back and the rows in between must not.
+pub fn dense_grow_words(gap: usize) {
+    let v0: i64 = kani::any();
+    let mut c: ColumnData<i64> = ColumnData::Dense { base: 0, values: vec![v0; 64], present: vec![u64::MAX], count: 64 };
+    let v: i64 = kani::any();
+    let idx = 63 + gap;
+    c.set(idx, v);
+    assert!(c.get(idx) == Some(&v), "C30 a row reads back the last value set");
+    assert!(c.len() == 65, "C30 len after set");
+    let j: usize = kani::any();
+    kani::assume(j < idx + 70);
+    if j < 64 {
+        assert!(c.get(j) == Some(&v0), "C30 set changed another row");
+    } else if j != idx {
+        assert!(c.get(j).is_none(), "C30 set invented a row");
+    }
+    vk_cover!(matches!(c, ColumnData::Dense { .. }), "reach stays dense");
     std::mem::forget(c);
 }
 
